@@ -1059,6 +1059,12 @@ class MayRaise:
         if isinstance(idx, ast.Name):
             if is_idx(it):
                 return True, "index variable ranges over the sequence"
+            for f in facts:
+                if f[0] == "LENMINUS" and f[1] == it and f[2] == x:
+                    nn = ("GE0", it) in facts or any(g[0] == "INT" and g[1] == it and g[2] >= 0 for g in facts) or \
+                        any(g[0] in ("LT", "LE") and g[2] == it and _const_ge(g[1], 0) for g in facts) or (f[3] == 1 and nonempty)
+                    if nn:
+                        return True, f"{it} = len({x}) - {f[3]} and is not negative here"
             nonneg_it = ("GE0", it) in facts or any(f[0] == "LE" and f[2] == it and (_const_ge(f[1], 0) or ("GE0", f[1]) in facts) for f in facts)
             if ("LTLEN", it, x) in facts and nonneg_it:
                 return True, "0 <= i < len(x) by loop guard"
@@ -1870,6 +1876,8 @@ class MayRaise:
                 return out
             if a is not None and ("LEN==", norm(a), "1") in facts:
                 ok, why = True, "argument is a one-character string at every call site"
+            if isinstance(a, ast.Constant) and isinstance(a.value, (str, bytes)) and len(a.value) == 1:
+                ok, why = True, "a one-character literal"
             add("ord", "TypeError", bool(ok), why)
             return out
         if name == "struct.unpack":
@@ -1882,6 +1890,15 @@ class MayRaise:
         if name in ("re.compile", "re.match", "re.search", "re.fullmatch", "re.sub", "re.escape"):
             if name == "re.sub" and len(e.args) >= 2:
                 out |= self.callback_escapes(e.args[1], ctx, e)
+            return out
+        if name in ("itertools.takewhile", "itertools.dropwhile", "itertools.filterfalse", "filter", "map", "itertools.starmap") and len(e.args) >= 2:
+            # lazily applies the function to the elements: what it can raise surfaces where the result is consumed - inside this
+            # expression in every use the package makes of them
+            if isinstance(e.args[0], ast.Constant) and e.args[0].value is None:
+                return out
+            out |= self.callback_escapes(e.args[0], ctx, e)
+            return out
+        if name in ("itertools.chain", "itertools.islice", "itertools.repeat", "itertools.count", "itertools.chain.from_iterable", "functools.partial", "operator.attrgetter", "operator.itemgetter"):
             return out
         if name == "functools.reduce" and len(e.args) >= 2:
             # the function is applied to the elements: what it can raise, the reduction can raise (TypeError on an empty
@@ -2115,6 +2132,17 @@ class MayRaise:
         if isinstance(cb, ast.Lambda) and not isinstance(fi.node, ast.Lambda):
             li = self.r.lambda_info(fi, cb, None)
             return self.call_summary(li, None, ctx, site, None)
+        if isinstance(cb, ast.Attribute) and isinstance(cb.value, ast.Name) and cb.value.id == "operator" and \
+                cb.attr in ("eq", "ne", "lt", "le", "gt", "ge", "is_", "is_not", "not_", "truth", "and_", "or_", "xor", "add", "sub", "mul", "neg", "pos", "index"):
+            return set()          # comparisons / total arithmetic on the values this package hands them (ints, bytes, str)
+        if isinstance(cb, ast.Call) and norm(cb.func) in ("functools.partial", "partial") and cb.args:
+            return self.callback_escapes(cb.args[0], ctx, site)
+        if isinstance(cb, ast.Call) and self._is_getter_expr(cb):
+            return set()
+        if isinstance(cb, ast.Name) and cb.id not in fi.params():
+            gq = [g for g in self.m.modules[fi.module].globals_.get(cb.id, []) if isinstance(g, (ast.Assign, ast.AnnAssign)) and g.value is not None]
+            if len(gq) == 1 and isinstance(gq[0].value, ast.Call) and (norm(gq[0].value.func) in ("functools.partial", "partial") or self._is_getter_expr(gq[0].value)):
+                return self.callback_escapes(gq[0].value, ctx, site)
         self.unknown_calls.append(f"{fi.qualname}:{site.lineno} callback {norm(cb)[:60]}")
         return {Esc("Other", fi.qualname, norm(site)[:120], site.lineno, "unknown-call")}
 
